@@ -26,6 +26,8 @@ DEFAULT = {
     "p_per_filter": 0.5,   # filter depends on the period (admitted states vary)
     "p_q": 0.3,            # second filter-restricted state q
     "p_b_in_filter": 0.3,  # the filter also restricts the discrete choice b
+    "p_reduction_aux": 0.2,   # an auxiliary function written as jnp.sum(jnp.array([...])), used by utility only
+    "p_choice_filter": 0.25,  # an additional filter over the restricted choice a (and the period) only
     "p_state_filter": 0.2, # additional filter on the state r alone
     "p_b": 0.5,            # unfiltered discrete choice b
     "p_a": 0.8,            # discrete choice a (filtered if r is present)
@@ -124,7 +126,9 @@ def _rand_model_once(rng, P):  # noqa: C901, PLR0912, PLR0915
         vars_.append(mkvar("h", "state", "disc", nh))
     if has_w:
         if log_w:
-            nodes = [1, 2, 4] if nw == 3 else [1, 2, 4, 8, 16]
+            first = rng.choice([F(1), F(2), F(1, 2)])
+            nodes = [first * 2 ** k for k in range(nw)]
+            log_lo, log_hi = nodes[0], nodes[-1]
             vars_.append(mkvar("w", "state", "log", nw, nodes=nodes))
         else:
             vars_.append(mkvar("w", "state", "lin", nw, 0, sw * (nw - 1)))
@@ -133,7 +137,8 @@ def _rand_model_once(rng, P):  # noqa: C901, PLR0912, PLR0915
     if has_q:
         vars_.append(mkvar("q", "state", "disc", 2))
     if has_z:
-        vars_.append(mkvar("z", "state", "lin", 3, -1, 1))
+        nz = sz.get("z", 3)
+        vars_.append(mkvar("z", "state", "lin", nz, -1, {3: 1, 5: 3, 2: 0}[nz]))
     if has_e:
         vars_.append(mkvar("e", "state", "disc", ne))
     if has_b:
@@ -153,6 +158,8 @@ def _rand_model_once(rng, P):  # noqa: C901, PLR0912, PLR0915
             ncx *= v["n"]
     nlab = (nh if h_stoch else 1) * (ne if has_e else 1)
     ncorner = (2 if has_w else 1) * (2 if has_z else 1)
+    if has_z and sz.get("z", 3) > 3:
+        ns = ns  # (already counted through vars_)
     if ns * ncx * nlab * ncorner > P["max_cells"]:
         return None
 
@@ -178,23 +185,39 @@ def _rand_model_once(rng, P):  # noqa: C901, PLR0912, PLR0915
         scombos = list(itertools.product(*[range(size[n]) for n in fstates]))
         ccombos = list(itertools.product(*[range(size[n]) for n in fchoices]))
         admitted = []      # per period: admitted combinations of the restricted states (tuples in the order of fstates)
-        passing = []       # per period: set of (state combo, choice combo) that pass
+        passing = []       # per period: set of (state combo, choice combo) that pass ALL filters
+        choice_filter = na >= 2 and has("p_choice_filter")
+        ok_a, loose = [], []   # per period: values of a the choice-only filter admits; what m_filter alone lets pass
         for t in range(T):
             if t == 0 or per_filter:
+                oka = sorted(rng.sample(range(na), rng.randint(1, na - 1))) if choice_filter else list(range(na))
+                cc_ok = [cc for cc in ccombos if cc[0] in oka]
                 while True:
                     adm = [sc for sc in scombos if rng.random() < 0.7 or P["all_admitted"]]
                     if adm:
                         break
-                ps = {(sc, cc) for sc in adm for cc in ccombos if rng.random() < 0.6}
+                ps = {(sc, cc) for sc in adm for cc in cc_ok if rng.random() < 0.6}
                 for sc in adm:
-                    if not any((sc, cc) in ps for cc in ccombos):
-                        ps.add((sc, rng.choice(ccombos)))
+                    if not any((sc, cc) in ps for cc in cc_ok):
+                        ps.add((sc, rng.choice(cc_ok)))
+                # m_filter alone also lets some combinations pass that the choice-only filter removes
+                lo = set(ps) | {(sc, cc) for sc in adm for cc in ccombos if cc[0] not in oka and rng.random() < 0.7}
             admitted.append(adm)
             passing.append(ps)
+            ok_a.append(oka)
+            loose.append(lo)
         fvars = fstates + fchoices
         dims = [size[n] for n in fvars]
         ns_ = len(fstates)
-        mask_t = lambda t: _tab(rng, dims, fn=lambda idx: (tuple(idx[:ns_]), tuple(idx[ns_:])) in passing[t])  # noqa: E731
+        mask_t = lambda t: _tab(rng, dims, fn=lambda idx: (tuple(idx[:ns_]), tuple(idx[ns_:])) in loose[t])  # noqa: E731
+        if choice_filter:
+            feat["choice_only_filter"] = True
+            if per_filter:
+                funcs.append(mkfunc("c_filter", "filter", _shuf(rng, ["a", "_period"], P),
+                                    ["tab", ["_period", "a"], [[x in ok_a[t] for x in range(na)] for t in range(T)]]))
+            else:
+                funcs.append(mkfunc("c_filter", "filter", ["a"], ["tab", ["a"], [x in ok_a[0] for x in range(na)]]))
+            params["c_filter"] = {}
         if per_filter:
             funcs.append(mkfunc("m_filter", "filter", _shuf(rng, [*fvars, "_period"], P),
                                 ["tab", ["_period", *fvars], [mask_t(t) for t in range(T)]]))
@@ -264,6 +287,17 @@ def _rand_model_once(rng, P):  # noqa: C901, PLR0912, PLR0915
         terms.append(mul(ci(-2, 2), var("_period")))
         uargs.append("_period")
         feat["F13"] = True
+    if has("p_reduction_aux") and (has_a or has_b):
+        # an auxiliary function written as a reduction over a stacked array (jnp.sum(jnp.array([...]))).  It only feeds
+        # utility (and can be requested as a target): lcm.simulate applies the transition functions to whole batches
+        # without vmap, so a reduction inside a transition's dependencies is not supported by the library.
+        src = "a" if has_a else "b"
+        targs = [src, "kt"] + (["_period"] if T > 1 else [])
+        funcs.append(mkfunc("tot", "aux", _shuf(rng, targs, P), ["ssum", mul(var(src), var("kt")), var("_period") if T > 1 else const(1)]))
+        params["tot"] = {"kt": q(rng.choice([1, 2, 3]))}
+        terms.append(var("tot"))
+        uargs.append("tot")
+        feat["reduction_aux"] = True
     if has("p_param_only_aux"):
         funcs.append(mkfunc("bonus", "aux", ["kb", "k"], add(var("kb"), var("k"))))
         params["bonus"] = {"kb": q(rng.randint(-2, 2)), "k": q(rng.randint(0, 3))}
@@ -313,8 +347,7 @@ def _rand_model_once(rng, P):  # noqa: C901, PLR0912, PLR0915
         else:
             params["next_w"] = {}
         if log_w:
-            hi = 4 if nw == 3 else 16
-            e = ["max", const(1), ["min", const(hi), add(e, const(1))]]
+            e = ["max", const(log_lo), ["min", const(log_hi), add(e, const(1))]]
             feat["F4"] = True
         funcs.append(mkfunc("next_w", "next", _shuf(rng, nargs, P), e))
         if not has_c or has("p_nobind"):
@@ -446,7 +479,7 @@ def strip_meta(m):
 # ----------------------------------------------------------------------------- initial states
 
 
-def rand_initial_states(rng, m, n_agents, *, on_grid=False, off_range=True):
+def rand_initial_states(rng, m, n_agents, *, on_grid=False, off_range=True, integer=False):
     """Initial states: discrete ones among the states admitted in period 0, continuous ones on
     nodes, inside cells and (linear grids) outside the range."""
     from .mdl import grid_values
@@ -468,6 +501,10 @@ def rand_initial_states(rng, m, n_agents, *, on_grid=False, off_range=True):
         else:
             g = grid_values(v)
             vals = []
+            if integer:     # integer-valued points only: nodes, points inside cells and beyond the range
+                lo, hi = int(g[0]) - (0 if v["kind"] == "log" else 1), int(g[-1]) + (0 if v["kind"] == "log" else 2)
+                out[v["name"]] = [F(rng.randint(max(lo, 1) if v["kind"] == "log" else lo, hi)) for _ in range(n_agents)]
+                continue
             for _ in range(n_agents):
                 u = rng.random()
                 if on_grid or u < 0.4 or len(g) < 2:
